@@ -5,6 +5,7 @@ package main
 // conservative havoc for unknown externals, mod-set inference.
 
 import (
+	"strconv"
 	"fmt"
 	"os"
 	"regexp"
@@ -69,6 +70,15 @@ func (ex *Exec) calleeKey(st *State, c *ssa.CallCommon) (key string, fn *ssa.Fun
 func (ex *Exec) doCall(st *State, fr *Frame, ins ssa.Instruction, c *ssa.CallCommon, k Kont) {
 	ex.curCall = ins
 	ex.countSite(st, fr, ins, c)
+	if hn := ex.errSite(st, fr, ins, c); hn != "" {
+		k0 := k
+		k = func(st *State, rets []Val) {
+			if n := len(rets); n > 0 && rets[n-1].Kind == VTerm && rets[n-1].T.Sort == SortIface {
+				st.setHeap(hn, rets[n-1].T)
+			}
+			k0(st, rets)
+		}
+	}
 	var args []Val
 	if c.IsInvoke() {
 		args = append(args, ex.get(st, c.Value))
@@ -238,9 +248,16 @@ func (ex *Exec) callStatic(st *State, fr *Frame, fn *ssa.Function, args []Val, b
 		return
 	}
 	inlineReq := fr.contract != nil && (fr.contract.Inline[short] || fr.contract.Inline[shortFn(fn)])
+	if os.Getenv("GOVC_TRACE_CALLS") != "" {
+		fmt.Fprintf(os.Stderr, "call %s from %s contract=%v inline=%v depth=%d\n", key, fr.fn, ex.db.Contracts[key] != nil, inlineReq, fr.depth)
+	}
 	if ct := ex.db.Contracts[key]; ct != nil && !inlineReq {
 		ex.pendingBinds, ex.pendingFn = binds, fn
-		k(st, ex.applyContract(st, fr, ct, key, args, sig, pos))
+		rets := ex.applyContract(st, fr, ct, key, args, sig, pos)
+		if st.dead {
+			return
+		}
+		k(st, rets)
 		return
 	}
 	if inRepo(fn) && len(fn.Blocks) > 0 && fr.depth < 4 && !ex.onStack(fr, fn) {
@@ -345,6 +362,18 @@ func (ex *Exec) applyContract(st *State, fr *Frame, ct *Contract, key string, ar
 	}
 	// call-site obligations of the function under verification
 	ex.callsiteObligations(st, fr, key, short, ord, args, pos)
+	if ct.NoReturn {
+		// process exit: the path ends here; ensures clauses describe the exit
+		for _, e := range ct.Ensures {
+			if t, err := ex.evalSpecBool(e.Expr, env); err == nil {
+				st.assume(t)
+			}
+		}
+		ex.exitChecks(st, fr, short)
+		ex.endPath(st, "exit:"+short)
+		st.dead = true
+		return nil
+	}
 	// havoc the frame
 	ex.curFr = fr
 	if ct.HasMod {
@@ -363,6 +392,22 @@ func (ex *Exec) applyContract(st *State, fr *Frame, ct *Contract, key string, ar
 		} else {
 			ex.havocAll(st, true)
 		}
+	}
+	// the callee's own call-site ghosts (execution counters, last errors) are
+	// written by the callee: havoc them; counters only grow
+	for _, t := range sortedKeys(ex.tracked(ct)) {
+		i := strings.LastIndex(t, "#")
+		kk, _ := strconv.Atoi(t[i+1:])
+		hn := siteHeap(key, t[:i], kk)
+		before := st.heap(hn, SortInt)
+		nv := st.fresh("sitecount", SortInt)
+		st.assume(Ge(nv, before))
+		st.setHeap(hn, nv)
+	}
+	for _, t := range sortedKeys(ex.errSitesOf(ct)) {
+		i := strings.LastIndex(t, "#")
+		kk, _ := strconv.Atoi(t[i+1:])
+		st.setHeap(siteErrHeap(key, t[:i], kk), st.fresh("siteerr", SortIface))
 	}
 	// results
 	allocBefore := st.allocCtr
@@ -797,6 +842,9 @@ func (ex *Exec) callMods(c *ssa.CallCommon, ms *ModSet, depth int) {
 		return
 	}
 	if ct := ex.db.Contracts[key]; ct != nil {
+		if ct.NoReturn {
+			return // the process exits: no effect is observable afterwards
+		}
 		if ct.HasMod || ct.Trusted {
 			ex.modsOfClauses(ct, ms)
 			if fn != nil && closureStoresFreeVars(fn) {
@@ -842,6 +890,18 @@ func (ex *Exec) modsOfClauses(ct *Contract, ms *ModSet) {
 			// slice window or array pointee: byte memory unless stated otherwise
 			ms.write(memName(SortInt), memSort(SortInt))
 		default:
+			if !strings.Contains(m, ".") {
+				// a package-level variable of the callee's package
+				if pkg := ex.pkgOfKey(ct.Key); pkg != nil {
+					if sp := ex.prog.Package(pkg); sp != nil {
+						if g, ok := sp.Members[m].(*ssa.Global); ok {
+							et := g.Type().Underlying().(*types.Pointer).Elem()
+							ms.write("V|"+g.Pkg.Pkg.Path()+"."+g.Name(), sortOf(et))
+							continue
+						}
+					}
+				}
+			}
 			// x.f : resolved at the call site by havocLvalue; here be coarse
 			ms.fieldsByName(ex, m)
 		}
@@ -916,6 +976,18 @@ func (ex *Exec) havocLvalue(st *State, m string, env *Env) error {
 			}
 			st.havocHeap("g|"+x.Name, g.Sort)
 			return nil
+		}
+		// a mutable package-level variable of the callee's package
+		if _, isVar := env.vars[x.Name]; !isVar && env.pkg != nil {
+			sp := ex.prog.Package(env.pkg)
+			if sp == nil {
+				return fmt.Errorf("no ssa package for %s", env.pkg.Path())
+			}
+			if g, ok := sp.Members[x.Name].(*ssa.Global); ok && !ex.isImmutableGlobal(g) {
+				et := g.Type().Underlying().(*types.Pointer).Elem()
+				st.havocHeap("V|"+g.Pkg.Pkg.Path()+"."+g.Name(), sortOf(et))
+				return nil
+			}
 		}
 		// a pointer-to-array parameter: *p shorthand without star
 		v, err := ex.evalSpec(e, env)
@@ -1694,8 +1766,26 @@ func (ex *Exec) tracked(c *Contract) map[string]bool {
 
 // countSite increments the ghost execution counter of a tracked call site.
 func (ex *Exec) countSite(st *State, fr *Frame, ins ssa.Instruction, c *ssa.CallCommon) {
-	if fr.contract == nil || len(ex.tracked(fr.contract)) == 0 {
-		return
+	if hn := ex.siteCounterHeap(st, fr, ins, c); hn != "" {
+		cur := st.heap(hn, SortInt)
+		st.setHeap(hn, Add(cur, IntLit(1)))
+	}
+}
+
+// siteCounterHeap: the counter heap of a tracked call site, "" if untracked.
+// Sites inside an inlined closure of the function under verification are
+// named "$1:callee" in that function's contract.
+func (ex *Exec) siteCounterHeap(st *State, fr *Frame, ins ssa.Instruction, c *ssa.CallCommon) string {
+	ct, owner, prefix := fr.contract, fr.fn, ""
+	if ct == nil {
+		p, ok := ex.closurePrefix(fr.fn)
+		if !ok || p == "" || ex.topC == nil {
+			return ""
+		}
+		ct, owner, prefix = ex.topC, ex.top, p
+	}
+	if len(ex.tracked(ct)) == 0 {
+		return ""
 	}
 	key, f := ex.calleeKey(st, c)
 	if f == nil && !c.IsInvoke() {
@@ -1704,13 +1794,27 @@ func (ex *Exec) countSite(st *State, fr *Frame, ins ssa.Instruction, c *ssa.Call
 		}
 	}
 	ord := ex.staticOrdinal(fr.fn, ins, key)
-	name := ex.siteNameOf(fr, key, ord)
-	if name == "" {
-		return
+	for _, t := range sortedKeys(ex.tracked(ct)) {
+		i := strings.LastIndex(t, "#")
+		name, k := t[:i], t[i+1:]
+		if k != fmt.Sprint(ord) {
+			continue
+		}
+		bare := name
+		if prefix != "" {
+			if !strings.HasPrefix(name, prefix) {
+				continue
+			}
+			bare = name[len(prefix):]
+		} else if strings.Contains(name, ":") && strings.HasPrefix(name, "$") {
+			continue
+		}
+		short := contractShort(key)
+		if bare == short || bare == key || strings.HasSuffix(key, "."+bare) || strings.HasSuffix(key, ")."+bare) {
+			return siteHeap(owner.String(), name, ord)
+		}
 	}
-	hn := siteHeap(fr.fn.String(), name, ord)
-	cur := st.heap(hn, SortInt)
-	st.setHeap(hn, Add(cur, IntLit(1)))
+	return ""
 }
 
 func storedFreeVars(fn *ssa.Function) map[*ssa.FreeVar]bool {
@@ -1725,4 +1829,121 @@ func storedFreeVars(fn *ssa.Function) map[*ssa.FreeVar]bool {
 		}
 	}
 	return out
+}
+
+// exitChecks: obligations of the function under verification that must hold
+// when the process exits through a non-returning callee (`exit requires ...`).
+func (ex *Exec) exitChecks(st *State, fr *Frame, via string) {
+	if ex.topC == nil {
+		return
+	}
+	for _, cr := range ex.topC.CallReqs {
+		if cr.Callee != "$exit" {
+			continue
+		}
+		cenv := &Env{ex: ex, st: st, old: ex.entry, vars: map[string]Val{}, fr: fr, pkg: ex.pkgOfFrame(fr), callerLocals: true}
+		t, err := ex.evalSpecBool(cr.Expr, cenv)
+		if err != nil {
+			ex.errors = append(ex.errors, fmt.Sprintf("%s: exit obligation %s: %v", funcKey(ex.top), cr.Label, err))
+			continue
+		}
+		ex.check(st, fr, "exit", cr.Label, t, cr.Props, "at process exit via "+via+": "+cr.Text, "")
+	}
+}
+
+var lasterrRe = regexp.MustCompile(`lasterr\("([^"]+)",\s*(\d+)\)`)
+
+// errSites: the call sites of the function under verification (or of its
+// closures, written "$1:callee") whose last error result the contract mentions
+// through lasterr("callee", k).
+func (ex *Exec) errSites() map[string]bool {
+	return ex.errSitesOf(ex.topC)
+}
+
+func (ex *Exec) errSitesOf(c *Contract) map[string]bool {
+	if c == nil {
+		return nil
+	}
+	if ex.errSiteCache == nil {
+		ex.errSiteCache = map[*Contract]map[string]bool{}
+	}
+	if m, ok := ex.errSiteCache[c]; ok {
+		return m
+	}
+	out := map[string]bool{}
+	add := func(text string) {
+		for _, m := range lasterrRe.FindAllStringSubmatch(text, -1) {
+			out[m[1]+"#"+m[2]] = true
+		}
+	}
+	for _, cl := range c.Requires {
+		add(cl.Text)
+	}
+	for _, cl := range c.Ensures {
+		add(cl.Text)
+	}
+	for _, cl := range c.CallReqs {
+		add(cl.Text)
+	}
+	for _, l := range c.Loops {
+		for _, cl := range l.Invariants {
+			add(cl.Text)
+		}
+	}
+	ex.errSiteCache[c] = out
+	return out
+}
+
+func siteErrHeap(fnKey, name string, k int) string {
+	return fmt.Sprintf("g|$siteerr:%s:%s#%d", fnKey, name, k)
+}
+
+// closurePrefix: "" for the function under verification itself, "$1:" for its
+// first closure, and so on; ok is false for unrelated functions.
+func (ex *Exec) closurePrefix(fn *ssa.Function) (string, bool) {
+	if fn == ex.top {
+		return "", true
+	}
+	for p := fn.Parent(); p != nil; p = p.Parent() {
+		if p == ex.top {
+			return strings.TrimPrefix(fn.Name(), ex.top.Name()) + ":", true
+		}
+	}
+	return "", false
+}
+
+// errSite: the ghost heap recording the last error returned at this call site,
+// if the contract of the function under verification tracks it.
+func (ex *Exec) errSite(st *State, fr *Frame, ins ssa.Instruction, c *ssa.CallCommon) string {
+	sites := ex.errSites()
+	if len(sites) == 0 || ex.top == nil {
+		return ""
+	}
+	prefix, ok := ex.closurePrefix(fr.fn)
+	if !ok {
+		return ""
+	}
+	key, f := ex.calleeKey(st, c)
+	if f == nil && !c.IsInvoke() {
+		if rf := resolveClosureVar(c.Value); rf != nil {
+			key = rf.String()
+		}
+	}
+	ord := ex.staticOrdinal(fr.fn, ins, key)
+	for _, t := range sortedKeys(sites) {
+		i := strings.LastIndex(t, "#")
+		name, k := t[:i], t[i+1:]
+		if k != fmt.Sprint(ord) || !strings.HasPrefix(name, prefix) {
+			continue
+		}
+		bare := name[len(prefix):]
+		if strings.Contains(bare, ":") {
+			continue
+		}
+		short := contractShort(key)
+		if bare == short || bare == key || strings.HasSuffix(key, "."+bare) || strings.HasSuffix(key, ")."+bare) {
+			return siteErrHeap(ex.top.String(), name, ord)
+		}
+	}
+	return ""
 }
